@@ -1,12 +1,25 @@
 (* C02 — gNMI notification round trip: TogNMINotifications (PathElem form, any prefix) followed
    by UnmarshalNotifications into an empty root gives back exactly the original tree: the same
-   leaves and leaf-lists, list entries under the same keys, nothing rejected.
-   This file only restates results proved in Tree/GnmiRtProofs.v (models: Tree/Leaves.v,
-   Notif.v, Node.v, SetReq.v; guards: Tree/GnmiRt.v) and exhibits the witnesses of the two
-   deviations that remain. *)
+   leaves and leaf-lists, list entries under the same keys, `ordered-by user` lists with their
+   entries in the same order, nothing rejected.
+   This file only restates results proved in Tree/GnmiRtProofs.v and Tree/GnmiRtOrdProofs.v
+   (models: Tree/Leaves.v, Notif.v, Node.v, SetReq.v; guards: Tree/GnmiRt.v, Tree/GnmiRtOrd.v) and
+   exhibits the witnesses of the deviations that remain.
+   Proved (c02_roundtrip_ordered, c02_render_total_ordered): every tree of the guard gn_treeb_ord,
+   which accepts `ordered-by user` lists in the OpenConfig shape `container xs { list x {...} }`
+   (the list is all that its surrounding container holds), any number of them, anywhere outside
+   another ordered list.  c02_roundtrip_partial / c02_render_total (guard gn_treeb: no ordered
+   list at all) are the special case (c02_guard_extends).
+   Still partial, because the unguarded statement is false on the faithful model:
+   - an ordered list with a sibling in its container: the atomic notification deletes the whole
+     container first and the sibling is lost (c02_refuted_atomic_wipes);
+   - an unkeyed list: the tree is rejected as a whole (c02_refuted_unkeyed);
+   - the scalar / key conditions of the guard (empty leaf-lists, `empty` leaves, NaN keys, union
+     values that the decoder reads as another member: see gn_node / key_wfb). *)
 From Ygot Require Import Tree.Tree Tree.Codec Tree.TreeOps Tree.RoundTrip.
 From Ygot Require Import Tree.KeyCodec Tree.Leaves Tree.Notif Tree.Node Tree.SetReq Path.PathRel.
 From Ygot Require Import Tree.KeyCodecProofs Tree.NodeStepProofs Tree.GnmiRt Tree.GnmiRtProofs Tree.GnmiExample.
+From Ygot Require Import Tree.GnmiRtOrd Tree.GnmiRtOrdProofs.
 From Ygot Require Import Corr.TreeCorr.
 
 (* The guards (all executable):
@@ -18,7 +31,26 @@ From Ygot Require Import Corr.TreeCorr.
                       no container without a leaf, Go-map lists with distinct, printable and
                       re-parseable keys (keys_wfb), no NaN key, key leaves equal to the map key,
                       no `ordered-by user` list, no unkeyed list;
-   prefix_okb pfx     no element of the prefix repeats a key name. *)
+   prefix_okb pfx     no element of the prefix repeats a key name;
+   gn_treeb_ord S t   as gn_treeb, and a struct may hold `ordered-by user` list fields (SList true).
+                      For such a field (first alternative a0 of its path tag; the atomic
+                      notification of the list is prefixed with path-of-the-struct ++ removelast a0),
+                      ord_field_okb:
+                      - compressed code (a0 = xs/x, two or more elements): DeleteNode of the prefix is
+                        resolved inside the struct to "remove this ordered-map field" and to this
+                        very field (find_field with the delete flag on removelast a0 gives
+                        FMOrdPartial of the field): nothing else can be wiped;
+                      - uncompressed code (a0 = x): the struct is the value of a container field
+                        of its parent (not the root, not a list entry) and the list is the only
+                        field it has set;
+                      and the list itself, gn_olistb: non-empty; every entry a struct satisfying
+                      the conditions of a Go-map entry (gn_node of the entry, hence no ordered list
+                      inside an ordered list, which the renderer rejects; key leaves equal to the
+                      key, key_matchb; keys printable and re-parseable, keys_wfb); keys pairwise
+                      distinct in any order (keys_okb true); and each key value survives
+                      ytypes.StringToType, which AppendNew uses (okeys_rtb: integer, string,
+                      boolean, enumeration / identityref keys and single-type unions of those; not
+                      decimal64, binary or multi-type unions). *)
 
 (* nothing is rejected *)
 Theorem c02_render_total : forall env fo ko, wf_envb env = true -> forall S t pfx,
@@ -58,11 +90,8 @@ Print Assumptions c02_notifs_are_leaves_wf.
 
 (* the round trip: exact tree equality, for any PathElem prefix (taken off the notifications
    again before they are applied to the schema root).
-   _partial: the guard gn_treeb excludes every `ordered-by user` list.  Missing for the target: the
-   case of ordered lists that are not wiped (the list is the only field of its parent node
-   that lies under the atomic prefix: the OpenConfig shape, c02_ordered_openconfig_shape below)
-   — it needs the DeleteNode step of an atomic notification and a second pass over the tree
-   (plain leaves first, then one ordered list after the other), not proved here. *)
+   _partial: the guard gn_treeb excludes every `ordered-by user` list; c02_roundtrip_ordered below
+   covers the ordered lists that are not wiped (OpenConfig shape). *)
 Theorem c02_roundtrip_partial : forall env fo ko, wf_envb env = true -> forall S t pfx ns,
   gn_treeb env fo ko S t = true -> prefix_okb pfx = true ->
   to_notifs env ko pfx S t = Ok ns ->
@@ -75,6 +104,32 @@ Theorem c02_roundtrip_noprefix_partial : forall env fo ko, wf_envb env = true ->
   unmarshal_notifs env fo ko S rt_sropts (TCont []) ns = (t, SROk).
 Proof. exact roundtrip_noprefix. Qed.
 Print Assumptions c02_roundtrip_noprefix_partial.
+
+(* ---------- with `ordered-by user` lists ---------- *)
+
+(* nothing is rejected *)
+Theorem c02_render_total_ordered : forall env fo ko, wf_envb env = true -> forall S t pfx,
+  gn_treeb_ord env fo ko S t = true -> prefix_okb pfx = true -> exists ns, to_notifs env ko pfx S t = Ok ns.
+Proof. exact render_total_ord. Qed.
+Print Assumptions c02_render_total_ordered.
+
+(* the round trip: exact tree equality, the order of the entries of every ordered list included.
+   What arrives is the plain notification (dropped when it is empty and an atomic one exists) and
+   then one atomic notification per ordered list (c02_notifs_are_leaves); each of them deletes
+   its prefix (inside the guard: a node that does not exist yet) and appends the entries in list
+   order (AppendNew). *)
+Theorem c02_roundtrip_ordered : forall env fo ko, wf_envb env = true -> forall S t pfx ns,
+  gn_treeb_ord env fo ko S t = true -> prefix_okb pfx = true ->
+  to_notifs env ko pfx S t = Ok ns ->
+  unmarshal_notifs env fo ko S rt_sropts (TCont []) (map (strip_notif pfx) ns) = (t, SROk).
+Proof. exact roundtrip_ord. Qed.
+Print Assumptions c02_roundtrip_ordered.
+
+(* the guard with ordered lists contains the guard without *)
+Theorem c02_guard_extends : forall env fo ko S t,
+  gn_treeb env fo ko S t = true -> gn_treeb_ord env fo ko S t = true.
+Proof. exact gn_treeb_ord_extends. Qed.
+Print Assumptions c02_guard_extends.
 
 (* every non-union leaf type satisfies the scalar guard by typing alone *)
 Theorem c02_scalar_guard_simple : forall env ko t v,
@@ -130,11 +185,50 @@ Example c02_roundtrip_computes :
   end.
 Proof. vm_compute. split; reflexivity. Qed.
 
-(* an ordered list in the OpenConfig shape (alone in its container) does survive, in order: the
-   guard of the theorem excludes ordered lists, this is a computed instance *)
+(* ordered lists in the OpenConfig shape, compressed code (acl-set[name]/entries/entry[seq], the
+   entries out of key order): inside the guard of c02_roundtrip_ordered, under a keyed prefix too *)
+Example c02_ordered_guard_satisfiable :
+  gn_treeb_ord ex_env ex_fo ex_ko ex_sch ex_tree_ord_oc = true /\
+  gn_treeb ex_env ex_fo ex_ko ex_sch ex_tree_ord_oc = false.
+Proof. split; vm_compute; reflexivity. Qed.
+
 Example c02_ordered_openconfig_shape :
   match to_notifs ex_env ex_ko [] ex_sch ex_tree_ord_oc with
   | Ok ns => unmarshal_notifs ex_env ex_fo ex_ko ex_sch rt_sropts (TCont []) ns = (ex_tree_ord_oc, SROk)
+             /\ existsb n_atomic ns = true
   | _ => False
   end.
-Proof. vm_compute. reflexivity. Qed.
+Proof. vm_compute. split; reflexivity. Qed.
+
+(* two compressed ordered lists in two entries of a Go map, an ordered list alone in its
+   (uncompressed) container `ords`, and plain leaves: 1 plain + 3 atomic notifications *)
+Definition ex_tree_ord_mix : tree :=
+  TCont [([65;99;108;83;101;116], TList [
+            ([VStr [115;49]], TCont [([69;110;116;114;121], TList [
+                 ([VInt U32 20%Z], TCont [([65;99;116;105;111;110], TLeaf (VEnum [69;95;67;111;108;111;114] 1%Z));
+                                          ([83;101;113], TLeaf (VInt U32 20%Z))]);
+                 ([VInt U32 10%Z], TCont [([83;101;113], TLeaf (VInt U32 10%Z))])]);
+               ([78;97;109;101], TLeaf (VStr [115;49]))]);
+            ([VStr [115;50]], TCont [([69;110;116;114;121], TList [
+                 ([VInt U32 7%Z], TCont [([83;101;113], TLeaf (VInt U32 7%Z))])]);
+               ([78;97;109;101], TLeaf (VStr [115;50]))])]);
+         ([79;114;100;115], TCont [([76;79;114;100], TList [
+            ([VStr [122]], TCont [([75], TLeaf (VStr [122]))]);
+            ([VStr [97]], TCont [([75], TLeaf (VStr [97])); ([86], TLeaf (VStr [118;97]))])])]);
+         ([84;111;112], TCont [([78;97;109;101], TLeaf (VStr [114;49]))])].
+
+Example c02_ordered_mix_roundtrip :
+  gn_treeb_ord ex_env ex_fo ex_ko ex_sch ex_tree_ord_mix = true /\
+  match to_notifs ex_env ex_ko ex_pfx ex_sch ex_tree_ord_mix with
+  | Ok ns => unmarshal_notifs ex_env ex_fo ex_ko ex_sch rt_sropts (TCont []) (map (strip_notif ex_pfx) ns)
+               = (ex_tree_ord_mix, SROk)
+             /\ (length ns =? 4)%nat = true
+  | _ => False
+  end.
+Proof. split; [vm_compute; reflexivity|]. vm_compute. split; reflexivity. Qed.
+
+(* the refuted shapes are outside the guard *)
+Example c02_ordered_guard_excludes :
+  gn_treeb_ord ex_env ex_fo ex_ko ex_sch ex_tree_ord = false /\
+  gn_treeb_ord ex_env ex_fo ex_ko ex_sch ex_tree_unk = false.
+Proof. split; vm_compute; reflexivity. Qed.
